@@ -6,12 +6,7 @@ From Soy Require Import Model.Bytes Model.Num Model.Values Model.Outcome Model.A
 Open Scope N_scope.
 
 (* ---- the three texts ---- *)
-Definition go_dir_text (d : pdir) (s : bstr) : bstr := match d with PEscapeHtml => tmpl_html_escape s | _ => s end.
-Fixpoint go_dirs_text (ds : list pdir) (s : bstr) : bstr :=
-  match ds with [] => s | d :: r => go_dirs_text r (go_dir_text d s) end.
-(* what the Go renderer writes for {print e|ds} when String() of the value is s *)
-Definition go_print_text (mode : N) (ds : list pdir) (s : bstr) : bstr :=
-  match ds with [] => if mode =? 2 then s else html_escape s | _ => go_dirs_text ds s end.
+(* go_dir_text / go_dirs_text / go_print_text (what the Go renderer writes) are in Model/MiniJS.v *)
 
 Definition js_dir_text (d : pdir) (s : bstr) : bstr := match d with PEscapeHtml => js_escape_html s | _ => s end.
 Fixpoint js_dirs_text (ds : list pdir) (s : bstr) : bstr :=
